@@ -69,10 +69,10 @@ class C10(Config):
               "Local Open Scope N_scope.")
     bin = "c10"
     release_too = False
-    n_tags = 90
+    n_tags = 110
     shard_size = 250
     classes = {1: "C10-encode-panics-on-short-or-long-container"}
-    rule = ("address values of every kind and network (constructors, encode, parse back), unified "
+    rule = ("address values of every kind and network (constructors, encode, parse back, convert_if_network for every expected network), unified "
             "Address/Ufvk/Uivk containers with arbitrary known and unknown items (try_from_items, encode, decode), "
             "f4jumble/f4jumble_inv on every length class, CompactSize read/write, and malformed / near-valid strings "
             "(mutated character, other checksum variant, wrong HRP, permuted or duplicated items, wrong padding, "
